@@ -149,3 +149,61 @@ Definition tex_remap (prrr nmrr texcb sbit : Z) : MemoryAttributes :=
 Definition leaf_device (s : machine) (l : sd_leaf) : bool :=
   let t := MemoryAttributes_type (tex_remap (sreg s i_prrr) (sreg s i_nmrr) (lf_texcb l) (lf_s l)) in
   (t =? MemType_DEVICE) || (t =? MemType_STRONGLY_ORDERED).
+
+(* ---------- B3.6 the long-descriptor format: stage 1, PL1&0 translation regime (TTBCR.EAE = 1, not Hyp mode) ----------
+   Executable specification compared with the implementation by correspondence only (no theorem). *)
+Definition i_mair0 := 35. Definition i_mair1 := 36.
+Definition desc64_at (s : machine) (pa : Z) : Z := endian (bit (sreg s i_sctlr) 25 =? 1) 8 (hub_read (mem s) pa 8).
+(* which base register, first lookup level, most significant input-address bit, walk disabled; None = translation fault *)
+Definition ld_region (s : machine) (ia : Z) : option (Z * Z * Z * bool) :=
+  let ttbcr := sreg s i_ttbcr in
+  let t0 := bits ttbcr 2 0 in let t1 := bits ttbcr 18 16 in
+  let in0 := (t0 =? 0) || (bits ia 31 (32 - t0) =? 0) in
+  let in1 := if t1 =? 0 then negb in0 else bits ia 31 (32 - t1) =? 2 ^ t1 - 1 in
+  let lvl sz := if sz <? 2 then 1 else 2 in
+  let base ttbr sz := let lb := 9 * lvl sz - sz - 4 in bits ttbr 39 lb * 2 ^ lb in
+  if in1 then Some (base (sreg s i_ttbr1) t1, lvl t1, 31 - t1, bit ttbcr 23 =? 1)
+  else if in0 then Some (base (sreg s i_ttbr0) t0, lvl t0, 31 - t0, bit ttbcr 7 =? 1)
+  else None.
+Record ld_tab := { lt_secure : bool; lt_rw : bool; lt_user : bool; lt_xn : bool; lt_pxn : bool }.
+Inductive ld_res := LD_fault (f : vfault) (level : Z) | LD_leaf (level pa attrs : Z).
+Fixpoint ld_levels (fuel : nat) (s : machine) (secure : bool) (ia base level : Z) (first : bool) (start_bit : Z) (a : ld_tab) : ld_res :=
+  match fuel with
+  | O => LD_fault VF_translation level
+  | S k =>
+      let offset := 9 * level in
+      let sel := if first then bits ia start_bit (39 - offset) else bits ia (47 - offset) (39 - offset) in
+      let d := desc64_at s (base + sel * 8) in
+      if bit d 0 =? 0 then LD_fault VF_translation level
+      else if (bit d 1 =? 0) && (level =? 3) then LD_fault VF_translation level
+      else if (bit d 1 =? 1) && negb (level =? 3) then
+        ld_levels k s secure ia (bits d 39 12 * 2 ^ 12) (level + 1) false start_bit
+          {| lt_secure := lt_secure a && (bit d 63 =? 0); lt_rw := lt_rw a && (bit d 62 =? 0); lt_user := lt_user a && (bit d 61 =? 0);
+             lt_xn := lt_xn a || (bit d 60 =? 1); lt_pxn := lt_pxn a || (bit d 59 =? 1) |}
+      else
+        let ia_len := 39 - offset in
+        let out := bits d 39 ia_len * 2 ^ ia_len + bits ia (ia_len - 1) 0 in
+        let at0 := bits d 54 52 * 2 ^ 10 + bits d 11 2 in
+        let at1 := if lt_xn a then insert at0 12 12 1 else at0 in
+        let at2 := if lt_pxn a then insert at1 11 11 1 else at1 in
+        let at3 := if secure && negb (lt_secure a) then insert at2 9 9 1 else at2 in
+        let at4 := if lt_rw a then at3 else insert at3 5 5 1 in
+        let at5 := if lt_user a then at4 else insert at4 4 4 0 in
+        let at6 := if lt_secure a then at5 else insert at5 3 3 1 in
+        if bit at6 8 =? 0 then LD_fault VF_access_flag level else LD_leaf level out at6
+  end.
+Inductive ld_xlate := LX_fault (f : vfault) (level : Z) | LX_ok (pa ns : Z).
+Definition ld_translate (secure : bool) (s : machine) (va : Z) (ispriv iswrite : bool) : ld_xlate :=
+  let mva := FCSE (sreg s i_fcseidr) va in
+  match ld_region s mva with
+  | None => LX_fault VF_translation 1
+  | Some (base, level, start_bit, disabled) =>
+      if disabled then LX_fault VF_translation 1 else
+      match ld_levels 3 s secure mva base level true start_bit
+                      {| lt_secure := secure; lt_rw := true; lt_user := true; lt_xn := false; lt_pxn := false |} with
+      | LD_fault f l => LX_fault f l
+      | LD_leaf l pa attrs =>
+          if vmsa_ap_denies false (bits attrs 5 4 * 2 + 1) ispriv iswrite then LX_fault VF_permission l
+          else LX_ok pa (bit attrs 3)
+      end
+  end.
